@@ -1,0 +1,82 @@
+//go:build verif
+
+package workflow
+
+import (
+	"github.com/AliceO2Group/Control/common/gera"
+	"github.com/AliceO2Group/Control/core/repos"
+	"github.com/AliceO2Group/Control/core/task"
+	"gopkg.in/yaml.v3"
+)
+
+// UnmarshalRoleForVerif parses a workflow template document exactly as Load's loadSubworkflow
+// does, without going through the repository manager.
+func UnmarshalRoleForVerif(yamlDoc []byte, parent Updatable) (Role, error) {
+	root := new(aggregatorRole)
+	root.parent = parent
+	err := yaml.Unmarshal(yamlDoc, root)
+	if err != nil {
+		return nil, err
+	}
+	if parent != nil {
+		root.setParent(parent)
+	}
+	return root, nil
+}
+
+// SubworkflowLoaderForVerif builds a LoadSubworkflowFunc (whose signature mentions an unexported
+// type) from a function returning the YAML document and repository of a subworkflow.
+func SubworkflowLoaderForVerif(get func(workflowPathExpr string) ([]byte, repos.IRepo, error)) LoadSubworkflowFunc {
+	return func(workflowPathExpr string, parent Updatable) (root *aggregatorRole, workflowRepo repos.IRepo, err error) {
+		var yamlDoc []byte
+		yamlDoc, workflowRepo, err = get(workflowPathExpr)
+		if err != nil {
+			return
+		}
+		root = new(aggregatorRole)
+		root.parent = parent
+		err = yaml.Unmarshal(yamlDoc, root)
+		if err != nil {
+			return nil, nil, err
+		}
+		if parent != nil {
+			root.setParent(parent)
+		}
+		return
+	}
+}
+
+// NewTaskRoleForVerif builds a task role as the YAML unmarshaller would (zero state and status).
+func NewTaskRoleForVerif(name string, traits task.Traits) Role {
+	return &taskRole{
+		roleBase: roleBase{
+			Name:     name,
+			Defaults: gera.MakeMap[string, string](),
+			Vars:     gera.MakeMap[string, string](),
+			UserVars: gera.MakeMap[string, string](),
+		},
+		Traits: traits,
+	}
+}
+
+// NewIncludeRoleForVerif builds an include role in the shape it has after its subworkflow was
+// loaded: an aggregator role.
+func NewIncludeRoleForVerif(name string, roles []Role) Role {
+	return &includeRole{
+		aggregatorRole: aggregatorRole{
+			roleBase: roleBase{
+				Name:     name,
+				Defaults: gera.MakeMap[string, string](),
+				Vars:     gera.MakeMap[string, string](),
+				UserVars: gera.MakeMap[string, string](),
+			},
+			aggregator: aggregator{Roles: roles},
+		},
+	}
+}
+
+// SetParentForVerif attaches a (root) role to its parent, as Load does with the environment's
+// ParentAdapter.
+func SetParentForVerif(r Role, parent Updatable) {
+	r.setParent(parent)
+}
